@@ -66,11 +66,14 @@ class Result:
                     known_hit.append((v, hit))
                 else:
                     new_viol.append(v)
-        outdir = os.path.join(VERIF, 'evidence')
+        outdir = os.environ.get('XV_EVIDENCE_DIR') or os.path.join(VERIF, 'evidence')
         os.makedirs(outdir, exist_ok=True)
         for v, k in known_hit:
             lines.append('KNOWN-FINDING: property=%s %s %s: %s' % (self.prop, v['rule'], v['site'], v['what']))
         replay_dir = os.path.join(outdir, 'violations')
+        import glob as _g
+        for old in _g.glob(os.path.join(replay_dir, self.prop + '-*.json')):
+            os.remove(old)
         for v in new_viol:
             os.makedirs(replay_dir, exist_ok=True)
             hid = hashlib.sha1((v['rule'] + v['site']).encode()).hexdigest()[:10]
